@@ -1,7 +1,9 @@
-(** C19 — in every reachable state of the SMTP server and of the POP3 server (as coded now), Drain returns exactly when no accepted session is still alive *)
-From IV Require Import Base.Bytes Model.Lifecycle Proofs.Lifecycle.
-Local Open Scope nat_scope.
-Theorem drain_exact : forall p acts y, run (sys_init p) acts = Some y ->
+(** C19 — drain_exact: the SESSION-COUNT part of Server.wg (coarse model, accept loop not counted): zero exactly when no accepted session is alive; it is the code's Drain only once the accept loop has exited — see drain_exact_accept_loop and coarse_drain_applies_after_loop_exit *)
+From Coq Require Import Lia.
+From IV Require Import Base.Bytes Model.Lifecycle.
+From IV Require Import Proofs.Lifecycle.
+Theorem drain_exact :
+  forall p acts y, run (sys_init p) acts = Some y ->
     (drain_returns y = true <-> forall i s, In (i, s) (ss (sv y)) -> alive s = false).
-Proof. exact Lifecycle.drain_exact. Qed.
+Proof. first [exact Lifecycle.drain_exact | intros; apply Lifecycle.drain_exact]. Qed.
 Print Assumptions drain_exact.
